@@ -207,7 +207,11 @@ def run_case(seed):
     def count(k):
         dist[k] = dist.get(k, 0) + 1
 
-    pf = gen.gen_plotfile(rng, allow_repeat=True, max_blocks=rng.choice([2, 3]))
+    if seed % 10 == 3:
+        # more than ten levels: level directories no longer sort like their numbers
+        pf = gen.gen_deep_plotfile(rng, nlevels=rng.choice([11, 12, 13]), ndims=rng.choice([2, 3]), nfields=rng.randint(1, 3))
+    else:
+        pf = gen.gen_plotfile(rng, allow_repeat=True, max_blocks=rng.choice([2, 3]))
     keys = reader_keys(pf.fields)
     path = core.scratch_dir(f"c01_{seed}")
     gen.write_plotfile(pf, path)
@@ -238,7 +242,20 @@ def run_case(seed):
         bkind, bsel = gen_bsel(rng, len(pf.levels[lvn].boxes))
         count(f"fsel={fkind}")
         count(f"bsel={bkind}")
-        impl = core.outcome(lambda: canon_result(pck[fsel][key][bsel], bsel))
+        reuse = rng.random() < 0.5
+        count(f"stream object reused={reuse}")
+
+        def read():
+            if not reuse:
+                return canon_result(pck[fsel][key][bsel], bsel)
+            # the same stream object serves two reads: a first one (one box), then the measured one
+            stream = pck[fsel][key]
+            try:
+                stream[rng.randrange(len(pf.levels[lvn].boxes))]
+            except Exception:
+                pass
+            return canon_result(stream[bsel], bsel)
+        impl = core.outcome(read)
         st, mres = model.call('getitem', [[x.encode() for x in keys], lvs_sx[:limit + 1], enc_fsel(fsel), limit, key, enc_bsel(bsel)])
         mres = [[s, d] for s, d in mres] if st == 'ok' else None
         ires = impl[1] if impl[0] == 'ok' else None
